@@ -371,6 +371,8 @@ def markers_start_le_end(ctx):
         return False, "merge_child_markers assigns %s" % asg
     mm = P.fn("Remover::merge_markers")
     idx_ranges = {id(T.peel(x["idx"])) for x in T.nodes(mm["tree"], "index")}
+    # a range that was only given a name (every use reads its ends directly, sa/forward.py) is not a marker
+    idx_ranges |= {id(T.peel(x["init"])) for x in T.nodes(mm["tree"], "let") if x.get("forwarded") and x.get("init") is not None}
     fused = [T.render(n) for n in T.nodes(mm["tree"], "struct") if {f["name"] for f in n["fields"]} == {"start", "end"} and id(n) not in idx_ranges]
     if any(f != "marker.start..end_marker.end" for f in fused):
         return False, "merge_markers builds range %s" % fused
